@@ -60,6 +60,11 @@ class Module(object):
             self._cfgs[qualname] = _cfg.build_py(self.fn(qualname))
         return self._cfgs[qualname]
 
+    def flat(self, qualname, keep=(), depth=3):
+        """view of one function with private same-module helpers inlined (see pyinline)"""
+        from . import pyinline
+        return pyinline.flatten(self, qualname, keep, depth)
+
     def src(self, node):
         try:
             return ast.get_source_segment(self.text, node) or ast.unparse(node)
